@@ -159,8 +159,12 @@ Definition with_lmtp_viol (args : list sx) (v : verdict) : verdict :=
       match dec_cfg cfga, dec_backend bea with
       | Some cfg, Some be =>
           let '(tags, bad) := lmtp_obs_judge cfg be (lmtp_shape_of args) obs in
+          (* a conversation during which the application called Server.Close ends where that call
+             found it: the attribution clause of C13 does not apply to the transaction it cut *)
+          let cut := existsb (fun e => match e with SL [t] => sx_is "srvclose" t | _ => false end)
+                       (match assoc1 "events" obs with Some (SL l) => l | _ => [] end) in
           mkV (v_ok v) (v_agree v) (v_model v)
-              (v_viol v ++ (if bad then [bs "C13"] else [])) (v_kf v) (v_tags v ++ tags)
+              (v_viol v ++ (if bad && negb cut then [bs "C13"] else [])) (v_kf v) (v_tags v ++ tags)
       | _, _ => v
       end
   | _, _, _ => v
